@@ -19,4 +19,7 @@ def run(prog, tier):
     CR.parameter_writer_rule(prog, res)
     CR.frame_writer_rule(prog, res)
     CR.header_sync_rule(prog, res)
+    # word 3 (analog measurements per frame) = channels x sub-frames is maintained by the header's own setters
+    import p_c05
+    p_c05.derived_rule(prog, res, 'header-sync/derived')
     return res
